@@ -1,17 +1,35 @@
 #!/venv/bin/python
-"""Prints the detection table (markdown) from seeded/*/meta.json."""
-import json, os, glob
+"""Prints the detection table (markdown, the format of DESIGN.md 9.5) from seeded/*/meta.json."""
+import glob
+import json
+
 rows = []
+bad = []
 for d in sorted(glob.glob('/verif/seeded/*/meta.json')):
     m = json.load(open(d))
     name = m['name']
-    ok = m.get('patch_applies') and m.get('demo_without_change') == 0 and m.get('demo_with_change') not in (0, None) and m.get('suite_passes_with_change')
-    det = ', '.join(m.get('detected_by') or []) or 'MISSED'
+    ok = m.get('patch_applies') and m.get('demo_without_change') == 0 and m.get('demo_with_change') not in (0, None) \
+        and m.get('suite_passes_with_change')
+    if not ok:
+        bad.append((name, {k: m.get(k) for k in ('patch_applies', 'demo_without_change', 'demo_with_change', 'suite_passes_with_change')}))
+    det = ', '.join(m.get('detected_by') or [])
+    thor = ', '.join(m.get('detected_by_thorough') or [])
+    if not det:
+        det = f'thorough tier only ({thor})' if thor else 'MISSED'
     first = ''
     for c, v in (m.get('checks') or {}).items():
         if v.get('first'):
             first = v['first'].split('[', 1)[-1].split(']')[0][:110]
-    rows.append(f"| {name} | {m['breaks_property']} | {'yes' if ok else 'NO: ' + str({k: m.get(k) for k in ('patch_applies','demo_without_change','demo_with_change','suite_passes_with_change')})} | {det} | {first} |")
-print('| change | property | confirmed (applies, demo passes/fails, suite passes) | detected by | first class key reported |')
-print('|---|---|---|---|---|')
+    if not first:
+        for c, v in (m.get('checks_thorough') or {}).items():
+            if v.get('first'):
+                first = v['first'].split('[', 1)[-1].split(']')[0][:110]
+    note = ''
+    if m.get('no_longer_manifests_at'):
+        note = f' (evaluated at {m.get("repo_head")}; no longer breaks the property since {m["no_longer_manifests_at"]})'
+    rows.append(f"| {name} | {m.get('needs_to_manifest', '')}{note} | {det} | {first} |")
+print('| change | needs, to manifest | detected by (quick) | first class key reported |')
+print('|---|---|---|---|')
 print('\n'.join(rows))
+if bad:
+    print('\nNOT CONFIRMED:', bad)
